@@ -33,10 +33,10 @@ import c10_classes as K  # noqa: E402
 
 KINDS = ['file', 'mapping', 'demo:mapping:mapping', 'demo:file:mapping']
 # A readCurrent declaration made AFTER savepoint k, popped by the store of a later savepoint (the object
-# was written), is forgotten when the transaction rolls back to k (reported to the coordinator as the
-# open residual of C03:readcurrent-dropped-by-rolled-back-write).  Off = the oracle does not demand the
-# check for exactly this pattern; set C03_STRICT_ROLLBACK=1 (or flip the default) once it is repaired.
-STRICT_ROLLBACK = os.environ.get('C03_STRICT_ROLLBACK', '') == '1'
+# was written), was forgotten when the transaction rolled back to k (C03:readcurrent-dropped-by-rolled-back-write,
+# repaired in /repo: a savepoint no longer pops the declaration).  The oracle demands the check for this
+# pattern too; C03_STRICT_ROLLBACK=0 switches that off (for experiments on an unrepaired tree only).
+STRICT_ROLLBACK = os.environ.get('C03_STRICT_ROLLBACK', '1') == '1'
 
 
 def resolves(kind):
